@@ -486,8 +486,14 @@ class ServiceInfo(RecordUpdateListener):
         """
         new_records_futures = self._new_records_futures
         updated: bool = False
+        # The address records of a host can come before the SRV record that
+        # names the host in the same packet: find out about the host first
         for record_update in records:
-            updated |= self._process_record_threadsafe(zc, record_update.new, now)
+            if type(record_update.new) is DNSService:
+                updated |= self._process_record_threadsafe(zc, record_update.new, now)
+        for record_update in records:
+            if type(record_update.new) is not DNSService:
+                updated |= self._process_record_threadsafe(zc, record_update.new, now)
         if updated and new_records_futures:
             _resolve_all_futures_to_none(new_records_futures)
 
